@@ -28,6 +28,7 @@ PARAM_AXIS = {'helpers.surface_deriv_cpts': {'rs': 0, 'ss': 1}}
 
 MODEL = None          # set by sa.run: lets scopes resolve the per-position direction tags of tuple-returning callees
 _RET_CACHE = {}
+DECLARED_RET = {}     # function key -> per-position direction tags of its returned tuple, entered by a check once a semantic rule has decided them
 
 
 def ret_tags_of(mod, name, depth=0):
@@ -37,6 +38,8 @@ def ret_tags_of(mod, name, depth=0):
     fi = MODEL.lookup_modfunc(mod, name) or MODEL.lookup_modfunc('fitting', name) or MODEL.lookup_modfunc('helpers', name)
     if fi is None:
         return None
+    if fi.key in DECLARED_RET:
+        return DECLARED_RET[fi.key]
     if fi.key in _RET_CACHE:
         return _RET_CACHE[fi.key]
     _RET_CACHE[fi.key] = None
